@@ -107,8 +107,10 @@ def hexary_calls(t):
     return calls
 
 
-def run_hexary(prune, prior, rng):
-    """returns (model ops, impl outs, violation)"""
+def run_hexary(prune, prior, rng, damaged=False):
+    """returns (model ops, impl outs, violation). damaged: every node is removed from the database after the prior writes (the
+    root hash stays), so any database read fails: an ill-typed / ill-sized argument is refused UP FRONT, with the same class,
+    before the database is consulted (the caller discards ops/outs of such a run: oracle only)"""
     from trie import HexaryTrie
     backing = C.FailingDict()
     t = HexaryTrie(backing, prune=prune)
@@ -116,6 +118,8 @@ def run_hexary(prune, prior, rng):
     for w in prior:
         HX.step(t, w, backing)
         HX.apply_model(m, w)
+    if damaged:
+        backing.clear()
     keys = HX.related_keys(m.keys())[:8]
     ops, outs = [], []
     bad = None
@@ -136,11 +140,13 @@ def run_hexary(prune, prior, rng):
         ops.append(mop)
         outs.append(out)
         ops.append(("HState",))
-        outs.append(HX.state_obs(t))
+        outs.append(None if damaged else HX.state_obs(t))
 
     for label, f, mk in hexary_calls(t):
         for kname, kmk in BAD_KINDS:
             record(f"{label}<{kname}>", (lambda f=f, kmk=kmk: f(kmk())), mk(), 1)
+    if damaged:
+        return ops, outs, bad and "with every node missing from the database: " + bad
     # an ill-typed VALUE under keys that would split existing nodes (they diverge from a stored key inside its leaf /
     # extension, or extend it): the refusal must come before any node is rewritten
     for k in sorted(m)[:3]:
@@ -245,12 +251,15 @@ def chapi(op):
 
 
 # ---------------------------------------------------------------------------
-def run_binary(prior):
+def run_binary(prior, damaged=False):
     from trie.binary import BinaryTrie
     from trie import branches as BR
     t = BinaryTrie({})
     for w in prior:
         BX.step(t, w)
+    root_node = t.db.get(t.root_hash)
+    if damaged:
+        t.db.clear()
     ops, outs = [], []
     bad = None
     good = b"\x12"
@@ -267,8 +276,8 @@ def run_binary(prior):
         ("get_branch.key", lambda x: BR.get_branch(t.db, t.root_hash, x), lambda: ("BAGetBranch", "BAD")),
         ("get_witness.key", lambda x: BR.get_witness_for_key_prefix(t.db, t.root_hash, x), lambda: ("BAWitness", "BAD")),
     ]
-    if t.root_hash in t.db:
-        node = t.db[t.root_hash]
+    if root_node is not None:
+        node = root_node
         calls.append(("if_branch_valid.key(value)", lambda x: BR.if_branch_valid([node], t.root_hash, x, b"x"), lambda: ("BABranchValid", "BAD", True)))
         calls.append(("if_branch_valid.key(None)", lambda x: BR.if_branch_valid([node], t.root_hash, x, None), lambda: ("BABranchValid", "BAD", False)))
     for label, f, mk in calls:
@@ -283,8 +292,8 @@ def run_binary(prior):
             ops.append(mk())
             outs.append(out)
             ops.append(("BAState",))
-            outs.append(BX.step(t, ("state",)))
-    return ops, outs, bad
+            outs.append(None if damaged else BX.step(t, ("state",)))
+    return ops, outs, bad and damaged and "with every node missing from the database: " + bad or bad
 
 
 def cbapi(op):
@@ -300,11 +309,13 @@ def cbapi(op):
 
 
 # ---------------------------------------------------------------------------
-def run_smt(ks, prior):
+def run_smt(ks, prior, damaged=False):
     from trie.smt import SparseMerkleTree, SparseMerkleProof, calc_root
     t = SparseMerkleTree(key_size=ks)
     for op in prior:
         t.set(op[1], op[2])
+    if damaged:
+        t.db.clear()
     ops, outs = [], []
     bad = None
     good = b"\x05" * ks
@@ -354,6 +365,8 @@ def run_smt(ks, prior):
     rec("from_db.root<len>", lambda: SparseMerkleTree.from_db(t.db, b"\x01" * 31, key_size=ks), ("SAFromDb", b"\x01" * 31))
     if bad is None and (proof.value != b"" or list(proof.branch) != [zero] * (8 * ks)):
         bad = "a refused SparseMerkleProof.update changed the proof"
+    if damaged:
+        return ops, outs, bad and "with every node missing from the database: " + bad
     for size in (0, 33, -1):
         out = guard(lambda: SparseMerkleTree(key_size=size))
         if bad is None and out != Exc(1):
@@ -417,6 +430,10 @@ def check(tier, seed):
         if bad:
             R.spec_violations.append((bad, {"component": "HexaryTrie", "prune": prune, "prior": prior}))
         hterms.append(f"(({cbool(prune)}, {HX.cops(prior)}, {clist([chapi(o) for o in ops])}), {cobs(outs)})")
+        _, _, bad = run_hexary(prune, prior, rng, damaged=True)
+        R.count("hexary_damaged_db")
+        if bad:
+            R.spec_violations.append((bad, {"component": "HexaryTrie", "prune": prune, "prior": prior, "damaged": True}))
         if i == 0:
             R.samples.append(C.to_json({"component": "HexaryTrie", "prior": prior, "calls": ops[:6]}))
         bprior = [("set", BX.gen_key(rng), BX.gen_value(rng)) for _ in range(rng.randint(0, 4))]
@@ -426,6 +443,10 @@ def check(tier, seed):
             R.nontrivial.add(C.case_key(["binary", i, j, ops[j]]))
         if bad:
             R.spec_violations.append((bad, {"component": "BinaryTrie", "prior": bprior}))
+        _, _, bad = run_binary(bprior, damaged=True)
+        R.count("binary_damaged_db")
+        if bad:
+            R.spec_violations.append((bad, {"component": "BinaryTrie", "prior": bprior, "damaged": True}))
         bterms.append(f"(({clist([BX.cop(o) for o in bprior])}, {clist([cbapi(o) for o in ops])}), {cobs(outs)})")
         ks = [1, 2, 1][i % 3]
         sprior = [("set", bytes(rng.randrange(256) for _ in range(ks)), b"v" * rng.randint(1, 3)) for _ in range(rng.randint(0, 3))]
@@ -435,6 +456,10 @@ def check(tier, seed):
             R.nontrivial.add(C.case_key(["smt", i, j, ops[j]]))
         if bad:
             R.spec_violations.append((bad, {"component": "SparseMerkleTree", "key_size": ks, "prior": sprior}))
+        _, _, bad = run_smt(ks, sprior, damaged=True)
+        R.count("smt_damaged_db")
+        if bad:
+            R.spec_violations.append((bad, {"component": "SparseMerkleTree", "key_size": ks, "prior": sprior, "damaged": True}))
         sterms.append(f"(({cnat(ks)}, {clist([c14.cop(o) for o in sprior])}, {clist([csapi(o) for o in ops])}), {cobs(outs)})")
     m1, e1, n1 = C.eval_cases("C18", "hexary", IMPORTS, "c18_hexary_run", "bool * list hop * list hapi", hterms, shard=1)
     m2, e2, n2 = C.eval_cases("C18", "binary", IMPORTS, "c18_binary_run", "list bop * list bapi", bterms, shard=1)
@@ -454,11 +479,11 @@ def replay(payload):
     case = payload["case"]
     bad = None
     if case.get("component") == "HexaryTrie":
-        _, _, bad = run_hexary(case["prune"], [HX.tuplify(o) for o in case["prior"]], random.Random(1))
+        _, _, bad = run_hexary(case["prune"], [HX.tuplify(o) for o in case["prior"]], random.Random(1), damaged=case.get("damaged", False))
     elif case.get("component") == "BinaryTrie":
-        _, _, bad = run_binary([tuple(o) for o in case["prior"]])
+        _, _, bad = run_binary([tuple(o) for o in case["prior"]], damaged=case.get("damaged", False))
     elif case.get("component") == "SparseMerkleTree":
-        _, _, bad = run_smt(case["key_size"], [tuple(o) for o in case["prior"]])
+        _, _, bad = run_smt(case["key_size"], [tuple(o) for o in case["prior"]], damaged=case.get("damaged", False))
     else:
         bad = fog_nibbles_checks()
     print("replay:", "VIOLATES: " + bad if bad else "holds")
